@@ -624,6 +624,63 @@ M("C07", "send-extracted-method-own-headers", CL, "", "", "C07.R9", edits=[
     (CL, _SEND_POST, "        try:\n            self._exchange(req)\n"),
 ])
 
+# =============================================================================================== R13: the transformed request is sent as the transform left it
+# (the transform performs the profile's dynamic placements - `header "<name>"` / `parameter "<name>"` with free names - so
+# nothing may replace / remove an entry of the request's headers / params between the transform and the send call;
+# client-side defaults belong into the initial request handed to the transform)
+_PRE_GET = (
+    "        url = urllib.parse.urljoin(self.base_url, req.uri.decode())\n"
+    "        params = {k.decode(): v.decode() for k, v in req.params.items()}\n"
+    "        try:\n"
+    "            self.logger.debug("
+)
+_SEND_POST_CALL = (
+    "            response = httpx.request(\n"
+    "                req.method, url, headers=req.headers, params=params, content=req.body, verify=self.verify\n"
+    "            )\n"
+)
+# a copy of the headers gets a fixed `Connection: close` and is sent instead ('do not keep the socket open')
+M("C07", "callback-connection-close-on-header-copy", CL, _SEND_POST,
+  _SEND_POST.replace("        try:\n", "        headers = dict(req.headers)\n        headers[b\"Connection\"] = b\"close\"\n        try:\n").replace("headers=req.headers", "headers=headers"),
+  "C07.R13")
+# entries after `**req.headers` in the dict display of the send call win over the transformed ones
+M("C07", "checkin-accept-encoding-overrides", CL, _SEND_GET,
+  _SEND_GET.replace("headers=req.headers,", "headers={**req.headers, b\"Accept-Encoding\": b\"identity\"},"), "C07.R13")
+# a cache-buster query parameter written into the decoded parameters (a `parameter "t"` placement of the id is lost)
+M("C07", "callback-cache-buster-parameter", CL, _SEND_POST,
+  _SEND_POST.replace("        try:\n", "        params[\"t\"] = str(self.counter)\n        try:\n"), "C07.R13")
+# in-place update of the transformed headers with the client's host header
+M("C07", "checkin-update-host-after-transform", CL, _PRE_GET,
+  "        req.headers.update({b\"Host\": self.host_header.encode()})\n" + _PRE_GET, "C07.R13")
+# hop-by-hop header dropped from the transformed request
+M("C07", "callback-pop-header-after-transform", CL, _SEND_POST,
+  _SEND_POST.replace("        try:\n", "        req.headers.pop(b\"Content-Length\", None)\n        try:\n"), "C07.R13")
+# the stamping lives in a method with a branch (not an expression helper) that is handed the request and returns it
+M("C07", "checkin-stamped-in-branching-helper", CL, "", "", "C07.R13", edits=[
+    (CL, "    def get_task(self) -> Optional[TaskPacket]:\n",
+     "    def _stamp(self, req: HttpRequest) -> HttpRequest:\n"
+     "        if self.host_header:\n"
+     "            req.headers[b\"Host\"] = self.host_header.encode()\n"
+     "        for name in (b\"Accept\",):\n"
+     "            req.headers[name] = b\"*/*\"\n"
+     "        return req\n\n"
+     "    def get_task(self) -> Optional[TaskPacket]:\n"),
+    (CL, _PRE_GET, "        req = self._stamp(req)\n" + _PRE_GET),
+])
+# twins: the transform keeps the last word
+T("C07", "twin-setdefault-after-transform", CL, _PRE_GET, "        req.headers.setdefault(b\"User-Agent\", self.user_agent.encode())\n" + _PRE_GET)
+T("C07", "twin-store-only-when-absent", CL, _SEND_POST,
+  _SEND_POST.replace("        try:\n", "        if b\"User-Agent\" not in req.headers:\n            req.headers[b\"User-Agent\"] = self.user_agent.encode()\n        try:\n"))
+T("C07", "twin-header-copy-sent-unchanged", CL, _SEND_POST,
+  _SEND_POST.replace("        try:\n", "        headers = dict(req.headers)\n        try:\n").replace("headers=req.headers", "headers=headers"))
+T("C07", "twin-defaults-before-transformed-headers", CL, _SEND_GET,
+  _SEND_GET.replace("headers=req.headers,", "headers={b\"User-Agent\": self.user_agent.encode(), **req.headers},"))
+T("C07", "twin-params-decoded-in-loop", CL, _SEND_POST,
+  _SEND_POST.replace("        params = {k.decode(): v.decode() for k, v in req.params.items()}\n",
+                     "        params = {}\n        for k, v in req.params.items():\n            params[k.decode()] = v.decode()\n"))
+T("C07", "twin-params-rekeyed-in-place-copy", CL, _SEND_POST,
+  _SEND_POST.replace("        try:\n", "        for k in list(params):\n            params[k] = str(params[k])\n        try:\n"))
+
 # =============================================================================================== R10: the parser cuts at the first separator
 # (body = everything after the first blank line, header value = everything after the first `: ` of its line, header name =
 # the text before it: body and header values are payload and may contain the separator again)
